@@ -43,8 +43,10 @@ ENGINES = [
                        "compiled against a shim and run differentially against the compiled Lean model"},
 ]
 NOTES = ("Technique family: machine-checked proof in Lean 4 over hand-written executable models, tied to /repo by a "
-         "differential correspondence check on every run (DESIGN.md). Properties not yet claimed are listed under "
-         "not_applicable with the reason 'check not built yet'; none is considered out of reach of the technique.")
+         "differential correspondence check on every run (DESIGN.md, as-built report in section 12). All 20 properties are "
+         "claimed; known findings (C08 concurrent-spawn-window, C14 capture-start-failure-keeps-stderr-reader-while-waiting, "
+         "C19 command-is-sh-reserved-word) are listed in known_findings.json and reported as KNOWN-FINDING lines. Run one check "
+         "at a time: checks share /repo's working tree, the cargo target directory and the evidence files.")
 COMMON_NOTE = ("Trusted: Lean kernel; axioms propext/Classical.choice/Quot.sound only (audited each run); the hand-written "
                "model and the correspondence harness (differential, not proved); OS/std behaviour enters as explicit "
                "axioms of the OS model (DESIGN.md section 3). ")
